@@ -9,6 +9,15 @@ LEVEL_NOTE = ("Trusted base: clang 14 front end and CFG builder, the gsa-extract
               "Assumes the shipped configuration (GALOIS_USE_LONGJMP_ABORT, NDEBUG).")
 
 CHECKS = {
+    "C09": ("exhaustive evaluation, on every CFG path of the heap/allocator/storage instantiations found, of: align-up idiom, "
+            "pointer computed before the bump, bump and capacity test with the same aligned value, refill skips the header "
+            "and links before publishing, no use of a block pointer found null without a refill, partial allocation clamps "
+            "to the re-read remaining space, free-list link order, allocate/deallocate sibling agreement on size class / "
+            "threshold / header offset, count*sizeof at byte-allocator calls, lock discipline of shared heap state, "
+            "double-checked singleton creation, moved-from objects disarmed, guarding static_asserts present. Disjointness "
+            "of live blocks as a value property and the offset split arithmetic are not decided.",
+            "units-of-measure (KIND), link-order, sibling-agreement, lock typestate and null-contradiction rules over clang "
+            "AST facts", "4 C09"),
     "C07": ("narrow: decides structural necessary conditions of determinism on every CFG path of every deterministic-executor "
             "instantiation of the driver matrix (branches on constant-returning disabled managers pruned): inspect and commit "
             "phases barrier-separated in both directions; round flags obey the barrier-interval rule; new work merged by "
